@@ -38,7 +38,8 @@ CLAIMS['C13'] = {
              'Match/Steal; proved by structural induction over the get program with adversarial memory (every value observed by '
              'an atomic access universally quantified), hence for sequential runs and for every interleaving at single-access '
              'granularity. Model tied to llfree.rs/trees.rs/local.rs by byte-level sequential differential runs.'
-             ' Theorem class_decisions_match_source: the entry transitions that decide classes (Tree::steal, reserve_or_steal, unreserve_add) are regenerated from core/src/trees.rs on every run by the translator (Gen/Tree.lean) and proved equal to the model\'s transitions for every entry, class, amount and policy (Proofs/GenTree.lean).'),
+             ' Theorem class_decisions_match_source: the entry transitions that decide classes (Tree::steal, reserve_or_steal, unreserve_add) are regenerated from core/src/trees.rs on every run by the translator (Gen/Tree.lean) and proved equal to the model\'s transitions for every entry, class, amount and policy (Proofs/GenTree.lean).'
+             ' Theorem repo_policies_match_source: the built-in policies (Classing::simple, Classing::movable, the policy of ClassingConfig::classing) are regenerated from the source on every run (Gen/Policy.lean) and equal the policy functions of the model.'),
     'note': TB,
     'technique': 'Lean 4 structural induction with adversarial memory (Always predicate, sound for runSolo and single-access thread steps) + sequential differential',
 }
